@@ -28,7 +28,8 @@ type c07Entry struct {
 	jsonTag string
 }
 
-var c07Ext0 = c07Entry{poolName(0), "*props.ExtP2Claims", 2, "eat-profile"}
+// (a name of more than 255 bytes: longer than any one-byte length field)
+var c07Ext0 = c07Entry{poolName(0) + "/" + strings.Repeat("a", 300), "*props.ExtP2Claims", 2, "eat-profile"}
 var c07Ext1 = c07Entry{poolName(1), "*props.ExtP1Claims", 1, "psa-profile"}
 var c07Own = c07Entry{poolName(2), "*props.OwnTagClaims", 2, "own-profile"}
 
